@@ -399,7 +399,8 @@ def aux_inits():
         b=O.Init("b", 2, dict(x=("double", 1, "r:b_defx"),
                               B=("double", 2, "r:b_defB"),
                               m=("int", 1, 9)),
-                 constants=dict(cb=["r:b_c0"]), label="b"),
+                 constants=dict(cb=["r:b_c0"], c=["r:b_c1", "r:b_c2"]),
+                 label="b"),
         b0=O.Init("b0", 0, dict(x=DBL(), B=("double", 2, None)), label="b0"),
         d=O.Init("d", 1, dict(x=DBL(), A=("double", 2, "r:d_defA"),
                               m=("int", 1, 1)), tags=False, label="d"))
@@ -437,6 +438,8 @@ def alphabet(full=True):
         lambda: O.AddProperty("A", stride=2, default="r:defA2", uid=6),
         lambda: O.AddProperty("x", uid=7),
         lambda: O.AddProperty("x", data=True, uid=8),
+        lambda: O.AddProperty("p5", data=True, stride=1, uid=9, k=2),
+        lambda: O.AddProperty("p6", data=True, stride=3, uid=10, k=1),
         lambda: O.RemoveProperty("A"),
         lambda: O.RemoveProperty("x"),
         lambda: O.RemoveProperty("m"),
@@ -470,8 +473,8 @@ def alphabet(full=True):
 
 # the operations that change structure or bookkeeping: middle and last
 # operation of the 3-operation programs (57*19*19 programs)
-CORE = (1, 2, 4, 7, 8, 11, 13, 14, 21, 23, 24, 26, 27, 30, 35, 36, 38, 40,
-        56)
+CORE = (1, 2, 4, 7, 8, 11, 13, 14, 21, 23, 24, 26, 27, 30, 32, 37, 38, 40, 42,
+        58)
 
 
 def programs(spec):
